@@ -117,8 +117,11 @@ def build(case, rnd):
             kw[name] = None if v == "none" else [[0, 1]] if v == "pair01" else [[j] for j in range(d)]
         elif name == "feature_mask":
             kw[name] = None if v == "none" else np.array([j == 0 for j in range(d)]) if v == "first_only" else np.ones(d, dtype=bool)
-        elif name in ("ovo", "dynamic"):
+        elif name in ("ovo", "dynamic", "verbose"):
             kw[name] = v == "true"
+        elif name == "random_state":
+            seed = rnd.randint(0, 99)
+            kw[name] = seed if v == "int" else np.random.RandomState(seed) if v == "instance" else None
         elif name in ("max_depth", "max_leaves"):
             kw[name] = None if v == "none" else int(v)
         elif name == "max_features":
@@ -129,14 +132,33 @@ def build(case, rnd):
             kw[name] = _num(v)
     if est == "Kauri" and kw.get("kernel") == "precomputed":
         y = X @ X.T
-    kw["random_state"] = rnd.randint(0, 99)
+    kw.setdefault("random_state", rnd.randint(0, 99))
     mod = {"Linear": linear, "RIM": linear, "Kernel": linear, "MLP": mlp, "Sparse": sparse, "Categorical": nonparametric, "Douglas": tree,
            "Kauri": tree}
     module = next(m for pre, m in mod.items() if est.startswith(pre))
     cls = getattr(module, est)
     model = cls(**kw)
-    info = dict(est=est, K=K, n=n, d=d, data_kind=kind, params={k: (v if isinstance(v, (int, float, str, bool, type(None))) else type(v).__name__)
+    layout = dd.get("layout", "c64")
+    Xin = X
+    if layout == "f32":
+        Xin = X.astype(np.float32)
+    elif layout == "fortran":
+        Xin = np.asfortranarray(X)
+    elif layout == "noncontiguous":
+        big = np.zeros((2 * n, 2 * d))
+        big[::2, ::2] = X
+        Xin = big[::2, ::2]
+    elif layout == "list":
+        Xin = X.tolist()
+    elif layout == "int64" and np.all(X == np.round(X)):
+        Xin = X.astype(np.int64)
+    decorated = dd.get("decorated", "no") == "mlcl" and est != "Kauri" and n >= 4
+    if decorated:
+        import gemclus
+        model = gemclus.add_mlcl_constraint(model, must_link=[[0, 1]], cannot_link=[[2, 3], [0, n - 1]] if n - 1 > 1 else [[2, 3]], factor=0.5)
+    info = dict(layout=layout, decorated=decorated, est=est, K=K, n=n, d=d, data_kind=kind, params={k: (v if isinstance(v, (int, float, str, bool, type(None))) else type(v).__name__)
                                                                for k, v in kw.items()})
+    info["Xin"] = Xin
     return model, X, y, info
 
 
